@@ -310,6 +310,7 @@ func checkC11(w *Worker) {
 	}
 	w.Explore("call-sequences", ExploreOpts{ShardDepth: 3}, func(x *Exec) {
 		pi := x.Choose(len(polluters), "event:earlier-call")
+		pj := x.Choose(len(polluters)+1, "event:second-earlier-call") // last: none (the book under test is the second call, else the third)
 		api := x.Choose(2, "input:api")
 		book := absBook{}
 		for i := 0; i < 3; i++ {
@@ -338,9 +339,12 @@ func checkC11(w *Worker) {
 		alone := outcome(book, n)
 		verifshim.ResetPackageState()
 		first := outcome(polluters[pi].book, polluters[pi].n)
+		if pj < len(polluters) {
+			first += " then " + outcome(polluters[pj].book, polluters[pj].n)
+		}
 		after := outcome(book, n)
 		x.Obs(alone, first)
-		x.Case(fmt.Sprint(pi, api, book, n), true)
+		x.Case(fmt.Sprint(pi, pj, api, book, n), true)
 		if alone != after {
 			x.Violate("C11|call-sequence|outcome-depends-on-an-earlier-call", fmt.Sprintf("book {%s} N=%d via %s: %q on its own, %q right after resolving {%s} with N=%d (which gave %q) in the same process",
 				book, n, apiNames[api], alone, after, polluters[pi].book, polluters[pi].n, first), map[string]interface{}{"book": book.String(), "N": n, "earlier_book": polluters[pi].book.String(), "earlier_N": polluters[pi].n})
